@@ -123,6 +123,54 @@ def run(tier, seed):
                         f"  [{info['ka']}{' , ' + info['kb'] if info['kb'] else ''}; {info['diff']}]")
         key = (c["verb"], c["m"], info["ka"], info["kb"], info["diff"], info["numeric_only"], info["char1_only"])
         clusters.setdefault(key, []).append(info)
+    # second route: the operands are VALUES HELD BY VARIABLES of one long-lived interpreter (bound once, used by every case):
+    # a verb must return the same value and must leave its operands alone (values are immutable)
+    bad_src = {x["src"] for items in clusters.values() for x in items}
+    ops, order = {}, []
+    for c in cases:
+        for o in ([c["a"]] if c["m"] else [c["a"], c["b"]]):
+            key = json.dumps(o, sort_keys=True)
+            if key not in ops:
+                ops[key] = (f"u{len(ops)}", o)
+                order.append(key)
+    K = KlongInterpreter()
+    for key in order:
+        name, o = ops[key]
+        K(f"{name}::{canon.render(o)}")
+    bound = {key: canon.canon(K(ops[key][0])) for key in order}       # what the variable holds right after binding
+    nvar = 0
+    for c in cases:
+        na = ops[json.dumps(c["a"], sort_keys=True)][0]
+        src = f"{c['verb']}{na}" if c["m"] else f"{na}{c['verb']}{ops[json.dumps(c['b'], sort_keys=True)][0]}"
+        lit_src = evaluate.__code__ and (f"{c['verb']}({canon.render(c['a'])})" if c["m"] else f"({canon.render(c['a'])}){c['verb']}({canon.render(c['b'])})")
+        if lit_src in bad_src:
+            continue                     # already reported by the first route
+        if c["verb"] == "^" and not c["m"]:
+            continue
+        try:
+            got = canon.canon(K(src))
+            exc = None
+        except BaseException as e:   # noqa
+            got, exc = {"t": "exc", "v": type(e).__name__}, f"{type(e).__name__}: {str(e)[:100]}"
+        nvar += 1
+        if not canon.same(c["exp"], got):
+            info = {"verb": c["verb"], "m": c["m"], "ka": kind(c["a"]), "kb": kind(c["b"]) if not c["m"] else None, "diff": "via-variable",
+                    "src": lit_src, "numeric_only": False, "char1_only": False, "shapes_differ": False, "expected": canon.show(c["exp"]),
+                    "observed": canon.show(got) if got["t"] not in ("exc", "x", "b", "f") else str(got), "exception": exc}
+            info["what"] = (f"{lit_src} evaluated with its operands held by variables of a long-lived interpreter gives {info['observed']}"
+                            f"{' (' + exc + ')' if exc else ''}; the same text from literals gives the prescribed {info['expected']}")
+            clusters.setdefault((c["verb"], c["m"], info["ka"], info["kb"], "via-variable", False, False), []).append(info)
+    for key in order:
+        name, o = ops[key]
+        now = canon.canon(K(name))
+        if not canon.same(bound[key], now):
+            info = {"verb": "(operand)", "m": 1, "ka": kind(o), "kb": None, "diff": "operand-mutated", "src": f"{name}::{canon.render(o)}",
+                    "numeric_only": False, "char1_only": False, "shapes_differ": False, "expected": canon.show(o), "observed": canon.show(now),
+                    "exception": None}
+            info["what"] = (f"an operand was changed by a verb applied to it: the variable bound to {canon.show(o)} holds "
+                            f"{canon.show(now)} after the cases were evaluated")
+            clusters.setdefault(("(operand)", 1, info["ka"], None, "operand-mutated", False, False), []).append(info)
+    ev.cov["cases_through_variables"] = nvar
     # one violation per cluster (verb, operand classes, difference class)
     for key, items in sorted(clusters.items(), key=lambda kv: str(kv[0])):
         info = dict(items[0])
@@ -138,13 +186,13 @@ def run(tier, seed):
     ev.cov["dyads_covered"] = sorted(verbs_d)
     ev.cov["exhaustive"] = True
     ev.cov["rule"] = ("every monad x operand and dyad x operand pair over the closed universe of KgUniverse.tla that lies inside the "
-                      "verb's domain (DomM/DomD); non-trivial = at least one operand is a list or string")
+                      "verb's domain (DomM/DomD), once from literals in a fresh interpreter and once with the operands held by variables of one long-lived interpreter (operands must stay unchanged); non-trivial = at least one operand is a list or string")
     for c in cases[:1] + cases[len(cases) // 2:len(cases) // 2 + 1]:
         ev.sample({"verb": c["verb"], "a": canon.show(c["a"]), "b": canon.show(c["b"]) if not c["m"] else None,
                    "prescribed": canon.show(c["exp"])})
     ev.cov["checker_cmd"] = "tlc KgUniverse.tla ; replay into KlongInterpreter"
     ev.assumptions += ["reals of the universe are rationals whose exact results are rational; float results are compared by value (1e-9)",
-                       "verbs not yet transcribed: $ (format), :$ (form), a$b (format2), :- (amend-in-depth), :@ (index-in-depth)",
+                       "verbs not yet transcribed: $ (format), :$ (form), a$b (format2), :@ (index-in-depth)",
                        "domains are conservative: where the reference text is silent or ambiguous the case is not judged"]
     return vd.finish()
 
